@@ -305,9 +305,11 @@ def build(prob):
     def dr_rot(l, k):
         idx = [(i + k) % R for i in range(R)]
         return collections.OrderedDict((RES[i], l[i]) for i in idx)
+    from rig.links import Links
     machine = Machine(prob["w"], prob["h"], chip_resources=dr(prob["res"]),
                       chip_resource_exceptions={tuple(c): dr_rot(r, c[0] + c[1] + 1) for c, r in prob["exc"]},
-                      dead_chips={tuple(c) for c in prob["dead"]})
+                      dead_chips={tuple(c) for c in prob["dead"]},
+                      dead_links={(x, y, Links(l)) for x, y, l in prob.get("dead_links", [])})
     vr = collections.OrderedDict()
     for v, d, present in prob["vr"]:
         rot = (hash(v) if isinstance(v, int) else len(str(v))) % R
@@ -796,13 +798,16 @@ def gen_hetero(rng, size, ring):
 
 from harness import c02_orders
 from harness import c02_kernel
+from harness import c02_sessions
 THEOREMS = THEOREMS + c02_orders.THEOREMS_ORDERS
-CLAIM = dict(CLAIM, text=CLAIM["text"] + " " + c02_orders.CLAIM_ORDERS + " " + c02_kernel.CLAIM_KERNEL,
+CLAIM = dict(CLAIM, text=CLAIM["text"] + " " + c02_orders.CLAIM_ORDERS + " " + c02_kernel.CLAIM_KERNEL + " " +
+             c02_sessions.CLAIM_SESSIONS,
              note=CLAIM["note"] + " " + c02_orders.NOTE_ORDERS)
 
 
 def run(ctx):
-    ctx.extra["rule"] = RULE + " " + c02_orders.RULE_ORDERS + " " + c02_kernel.RULE_KERNEL
+    ctx.extra["rule"] = RULE + " " + c02_orders.RULE_ORDERS + " " + c02_kernel.RULE_KERNEL + " " + \
+        c02_sessions.RULE_SESSIONS
     hilbert_checks(ctx)
     c02_orders.run_orders(ctx)
     ctx.extra["trusted_base"] = ["rig_c_sa (compiled annealing kernel outside /repo): opaque, checked only by the Feasible oracle",
@@ -837,6 +842,7 @@ def run(ctx):
         ctx.tag("hetero-weights-problem")
         eval_problems(ctx, [prob])
     c02_kernel.run_kernel(ctx)
+    c02_sessions.run_sessions(ctx)
 
 
 def replay(ctx, payload):
@@ -846,4 +852,6 @@ def replay(ctx, payload):
         return c02_kernel.replay_kernel(ctx, payload)
     if "orders" in case or "orders-fixed" in case:
         return c02_orders.replay_orders(ctx, payload)
+    if "session" in case or "machine_sequence" in case:
+        return c02_sessions.replay_sessions(ctx, payload)
     eval_problems(ctx, [case["problem"]])
